@@ -71,6 +71,25 @@ def build_cases(ctx):
                                 cases.append(dict(doc='\n'.join(lines), expect='gotwant', fail_stmt=2, trace=[10, 11, 12], corruption='stale-before-ignored-want', fail_line=None))
                             else:
                                 cases.append(dict(doc='\n'.join(lines), expect='pass', trace=[10, 11, 12], variants=['ignore_want:' + name]))
+    # a traceback want also ends the window: what a statement wrote before it raised the expected exception belongs to that
+    # statement, not to the next want (and neither does output that was still unmatched in front of it)
+    for k0 in (None, 'print', 'printexpr'):
+        for k2 in ('print', 'expr', 'printexpr'):
+            for quiet in (False, True):
+                stmts = ([gendoc.Stmt(k0, 10)] if k0 else []) + [gendoc.Stmt(k2, 13)]
+                raising = ('tn(11) or boom(12)' if quiet else 'pr(11) and boom(12)')
+                written = '' if quiet else 'p11a\n'
+                good = gendoc.correct_wants(stmts, len(stmts) - 1, len(stmts) - 1)
+                for name, text in sorted(good.items()):
+                    for stale in ((False, True) if (written or k0) else (False,)):
+                        w2 = ((stmts[0].out if k0 else '') + written + text) if stale else text
+                        lines = (stmts[0].render() if k0 else []) + ['>>> ' + raising, 'Traceback (most recent call last):', 'ValueError: bad']
+                        lines += stmts[-1].render() + w2.rstrip('\n').split('\n')
+                        trace = ([10] if k0 else []) + [11, 12, 13]
+                        if stale and w2 != text:
+                            cases.append(dict(doc='\n'.join(lines), expect='gotwant', fail_stmt=len(stmts), trace=trace, corruption='stale-before-expected-exception', fail_line=None))
+                        elif not stale:
+                            cases.append(dict(doc='\n'.join(lines), expect='pass', trace=trace, variants=['after_expected_exception:' + name]))
     return cases
 
 
